@@ -154,7 +154,9 @@ class SymReal(object):
         if self.c is None and b.c is None and _CTX is not None and _CTX.options.get('mul') == 'abstract':
             # uninterpreted (commutative) product: sound over-approximation for properties that do not depend on it
             x, y = self.rt, b.rt
-            if x.get_id() > y.get_id():
+            # canonical argument order by the structural hash (AST ids are not stable across re-executions)
+            hx, hy = x.hash(), y.hash()
+            if hx > hy or (hx == hy and not x.eq(y) and x.sexpr() > y.sexpr()):
                 x, y = y, x
             r = uf('umul', 2)(x, y)
             if x.eq(y):
